@@ -8,6 +8,7 @@ mod r_iter;
 mod r_mm;
 mod r_pp;
 mod rec_cost;
+mod rec_lib;
 mod util;
 
 use serde_json::Value;
@@ -114,6 +115,21 @@ fn main() {
         "record-cost" => {
             let n = rec_cost::record(args.val("--trace").expect("--trace"), args.num("--max-log2", 16) as u32, seed, args.val("--force").unwrap_or("avx2"));
             rep.count("records", n);
+        }
+        "record-lib" => {
+            let n = rec_lib::record(args.val("--trace").expect("--trace"), args.val("--family").unwrap_or("mixed"), args.num("--count", 1000) as usize, seed, args.val("--force").unwrap_or("avx2"));
+            rep.count("records", n);
+        }
+        "conc-child" => {
+            rec_lib::conc_child(args.val("--trace").expect("--trace"), args.num("--threads", 4) as usize, seed, args.num("--rounds", 20) as usize);
+            return;
+        }
+        "conc" => {
+            let (n, fails) = rec_lib::conc(args.val("--trace").expect("--trace"), args.num("--procs", 20) as usize, seed, args.num("--rounds", 20) as usize, args.val("--force").unwrap_or("avx2"));
+            rep.count("records", n);
+            for f in fails {
+                rep.finding(Class::Panic, &format!("concurrent child process failed: {f}"), serde_json::json!({}));
+            }
         }
         "replay-iter" => {
             let vs = read_ndjson(args.val("--in").expect("--in"));
